@@ -36,7 +36,7 @@ ASSUMPTIONS = [
 def GATES(tier):
     return [("constructions_judged", 1500), ("hierarchies", 60), ("handwritten_parent_calls_compared", 200), ("post_init_checked", 300), ("unknown_kw_rejected", 100), ("overflow_collected", 50),
             ("nonconforming_rejected", 100), ("key_positional", 30), ("key_missing_rejected", 10), ("two_parents", 10), ("plain_grandchild", 10), ("spec_grandchild", 10), ("init_false_parent", 5),
-            ("redeclared_attr", 20), ("redefaulted_attr", 20), ("parent_post_init", 10), ("key_redefaulted", 3), ("plain_middle", 5)]
+            ("redeclared_attr", 20), ("redefaulted_attr", 20), ("parent_post_init", 10), ("key_redefaulted", 3), ("plain_middle", 5), ("colliding_parents", 20), ("key_default_factory", 8)]
 
 
 class H:
@@ -57,7 +57,7 @@ class H:
                 init = True
                 if allow_init_false and default is not None and rng.random() < 0.15:
                     init = False
-                out[nm] = {"default": default, "init": init, "annotated": True, "style": rng.choice(["lit", "attr"]) if default is not None else None}
+                out[nm] = {"default": default, "init": init, "annotated": True, "style": rng.choice(["lit", "attr", "factory", "field", "field_factory"]) if default is not None else None}
             return out
 
         def parent(name, prefix):
@@ -82,10 +82,28 @@ class H:
         if two:
             parent("B", "b")
             self.features.add("two_parents")
+            # both parents declare the same attribute: the one that comes first in the MRO (A) owns it - its type, its
+            # default and its constructor apply. (A always assigns it: hand-written, or generated with a default.)
+            A, B = self.classes["A"], self.classes["B"]
+            cand = [n for n, a in A["attrs"].items() if a["init"] and (A["ctor"] == "handwritten" or a["default"] is not None)]
+            if cand and rng.random() < 0.5:
+                n = rng.choice(cand)
+                if B["ctor"] == "handwritten":
+                    B["attrs"] = {n: {"default": None, "init": True, "annotated": True, "style": None}, **B["attrs"]}
+                    B["sigdefs"] = {n: rng.randint(1, 9) * 1000, **B["sigdefs"]}
+                elif A["ctor"] == "generated" and rng.random() < 0.5:
+                    B["attrs"] = {n: {"default": "bs", "init": True, "annotated": True, "style": "lit", "type": "str"}, **B["attrs"]}
+                else:
+                    # (no class-level default in B behind a hand-written A: whether A's bare declaration shadows it is not documented)
+                    B["attrs"][n] = {"default": None if A["ctor"] == "handwritten" else rng.choice([None, rng.randint(1, 9) * 7]), "init": True, "annotated": True, "style": "lit"}
+                self.features.add("colliding_parents")
         # key on the root (generated constructors only)
         if self.classes["A"]["ctor"] == "generated" and rng.random() < 0.35:
             self.classes["A"]["key"] = "k"
             self.classes["A"]["key_default"] = rng.choice([None, "kd"])
+            self.classes["A"]["key_style"] = rng.choice(["lit", "attr", "factory", "field_factory"])
+            if self.classes["A"]["key_default"] is not None and self.classes["A"]["key_style"] in ("factory", "field_factory"):
+                self.features.add("key_default_factory")
             self.features.add("key" if self.classes["A"]["key_default"] is None else "key_with_default")
         # child
         c_attrs = {}
@@ -183,15 +201,18 @@ class H:
 
     def nearest_default(self, name, attr):
         """Nearest class-body default along the MRO of `name` (None = no default)."""
+        owner = self.managed(name).get(attr)
         for n in self.mro(name):
             a = self.classes[n]["attrs"].get(attr)
             if a is not None and a["default"] is not None:
                 return a["default"]
+            if n == owner:
+                return None  # the owner's declaration (without default) is where the search ends: classes behind it in the MRO are shadowed
         return None
 
     # -- source -----------------------------------------------------------------------------------
     def source(self):
-        L = ["from typing import Any, Dict", "from spec_classes import spec_class, Attr", "", "CALLS = []", ""]
+        L = ["from dataclasses import field", "from typing import Any, Dict", "from spec_classes import spec_class, Attr", "", "CALLS = []", ""]
         for name in self.order:
             c = self.classes[name]
             if c["kind"] == "spec":
@@ -205,15 +226,24 @@ class H:
             body = []
             if c.get("key"):
                 kd = c.get("key_default")
-                body.append(f"    {c['key']}: str" + (f" = {kd!r}" if kd is not None else ""))
+                ks = {"lit": "{v!r}", "attr": "Attr(default={v!r})", "factory": "Attr(default_factory=lambda: {v!r})", "field_factory": "field(default_factory=lambda: {v!r})"}[c.get("key_style", "lit")]
+                body.append(f"    {c['key']}: str" + (" = " + ks.format(v=kd) if kd is not None else ""))
             for n, a in c["attrs"].items():
                 if a["annotated"] and c["kind"] == "spec":
-                    if a["default"] is None:
+                    if a.get("type") == "str":
+                        body.append(f"    {n}: str = {a['default']!r}")
+                    elif a["default"] is None:
                         body.append(f"    {n}: int")
                     elif not a["init"]:
                         body.append(f"    {n}: int = Attr(default={a['default']}, init=False)")
                     elif a["style"] == "attr":
                         body.append(f"    {n}: int = Attr(default={a['default']})")
+                    elif a["style"] == "factory":
+                        body.append(f"    {n}: int = Attr(default_factory=lambda: {a['default']})")
+                    elif a["style"] == "field":
+                        body.append(f"    {n}: int = field(default={a['default']})")
+                    elif a["style"] == "field_factory":
+                        body.append(f"    {n}: int = field(default_factory=lambda: {a['default']})")
                     else:
                         body.append(f"    {n}: int = {a['default']}")
                 else:
@@ -255,7 +285,7 @@ class H:
             if key not in kw and kd is None:
                 return ("raise", (TypeError,)), None, None
         for k, v in kw.items():
-            if k in init_names and k != key and not isinstance(v, int):
+            if k in init_names and k != key and not isinstance(v, str if self.attr_info(name, k).get("type") == "str" else int):
                 return ("raise", (TypeError, ValueError)), None, None
             if k == key and not isinstance(v, str):
                 return ("raise", (TypeError, ValueError)), None, None
@@ -328,14 +358,14 @@ def run(ctx, params):
                 subsets = rng.sample(subsets, params["max_subsets"])
             cases = []
             for sub in subsets:
-                kw = {n: 7000 + i for i, n in enumerate(sub)}
+                kw = {n: (f"s{7000 + i}" if h.attr_info(cname, n).get("type") == "str" else 7000 + i) for i, n in enumerate(sub)}
                 for key_mode in (["kw", "pos", "missing"] if key else [None]):
                     cases.append((dict(kw), key_mode, "conforming"))
             if init_names:
-                cases.append(({init_names[0]: "not-an-int"}, "kw" if key else None, "nonconforming"))
+                cases.append(({init_names[0]: 12345 if h.attr_info(cname, init_names[0]).get("type") == "str" else "not-an-int"}, "kw" if key else None, "nonconforming"))
                 cases.append(({init_names[-1]: None}, "kw" if key else None, "nonconforming"))
             cases.append(({"zz_unknown": 1}, "kw" if key else None, "unknown"))
-            cases.append(({"zz_unknown": 1, "yy_unknown": "s", **({init_names[0]: 5} if init_names else {})}, "kw" if key else None, "unknown"))
+            cases.append(({"zz_unknown": 1, "yy_unknown": "s", **({init_names[0]: "five" if h.attr_info(cname, init_names[0]).get("type") == "str" else 5} if init_names else {})}, "kw" if key else None, "unknown"))
             for n in init_false[:1]:
                 cases.append(({n: 3}, "kw" if key else None, "init_false_kw"))
             for kw, key_mode, kind in cases:
@@ -415,5 +445,5 @@ def run(ctx, params):
 
 def plan(tier, seed):
     if tier == "quick":
-        return [{"shard": i, "hierarchies": 14, "max_subsets": 16} for i in range(16)]
-    return [{"shard": i, "hierarchies": 250, "max_subsets": 64} for i in range(32)]
+        return [{"shard": i, "hierarchies": 60, "max_subsets": 16} for i in range(16)]
+    return [{"shard": i, "hierarchies": 2500, "max_subsets": 64} for i in range(32)]
